@@ -10,6 +10,7 @@ import (
 	"io"
 	"net"
 	"sync"
+	"sync/atomic"
 	"time"
 
 	"github.com/tokenized/pkg/bitcoin"
@@ -37,6 +38,10 @@ type Peer struct {
 	wmu    sync.Mutex
 	Sent   [][]byte // raw bytes written, for replay files
 	Record bool
+	// WriteTimeout bounds one write (default 20 s); WriteTimedOut is set once a write hit it: the
+	// stream then ends in the middle of a frame and nothing that follows can be judged
+	WriteTimeout  time.Duration
+	WriteTimedOut int32
 }
 
 func Listen() (*Peer, error) {
@@ -212,8 +217,15 @@ func (p *Peer) SendRaw(b []byte) error {
 	if p.Record {
 		p.Sent = append(p.Sent, append([]byte(nil), b...))
 	}
-	p.conn.SetWriteDeadline(time.Now().Add(20 * time.Second))
+	to := p.WriteTimeout
+	if to == 0 {
+		to = 20 * time.Second
+	}
+	p.conn.SetWriteDeadline(time.Now().Add(to))
 	_, err := p.conn.Write(b)
+	if ne, ok := err.(net.Error); ok && ne.Timeout() {
+		atomic.StoreInt32(&p.WriteTimedOut, 1)
+	}
 	return err
 }
 
